@@ -342,6 +342,13 @@ func (mc *MemoryChannel) finishAof(writer *MemoryAofWriter, err error) {
 
 	mc.mux.Lock()
 	defer mc.mux.Unlock()
+	// appendAof may have rotated to a new segment after the current one was read above;
+	// left open, that segment would block every reader that reaches its end for ever
+	if cur := writer.currentSegment(); cur != nil && cur != seg {
+		cur.blob.close(err)
+		mc.signalSpaceLocked()
+		seg = cur
+	}
 	if mc.aofWriter == writer {
 		mc.aofWriter = nil
 	}
